@@ -1045,9 +1045,26 @@ func runC08(c *Ctx, _ []string) {
 		readAll(rd0, []int{70000}, 0, 0)
 		R := probe.calls
 		desc["source_calls"] = R
+		// (chunk 0: the source fills every request; 3 and 7: short reads, so that the failing call can be a
+		// continuation read of the bit stream's refill loop - sampled call indices there)
+		type srcCase struct{ k, chunk int }
+		var srcCases []srcCase
 		for k := 1; k <= R; k++ {
+			srcCases = append(srcCases, srcCase{k, 0})
+		}
+		for _, ch := range []int{3, 7} {
+			total := len(stream)/ch + 2
+			for k := 1; k <= 24 && k <= total; k++ {
+				srcCases = append(srcCases, srcCase{k, ch})
+			}
+			for j := 0; j < 6; j++ {
+				srcCases = append(srcCases, srcCase{r.Range(1, total), ch})
+			}
+		}
+		for _, scs := range srcCases {
+			k := scs.k
 			for _, jobs := range []uint{1, 3} {
-				src := &schedSource{data: stream, rfail: k}
+				src := &schedSource{data: stream, rfail: k, chunk: scs.chunk, offAtFail: -1}
 				rd, err := newReader(src, sc.cfg, jobs, nil)
 				if err != nil {
 					continue
@@ -1062,11 +1079,14 @@ func runC08(c *Ctx, _ []string) {
 				case <-time.After(60 * time.Second):
 					res = readResult{timeout: true}
 				}
-				tag := fmt.Sprintf("source fault at call %d/%d jobs=%d", k, R, jobs)
+				tag := fmt.Sprintf("source fault at call %d/%d chunk=%d jobs=%d", k, R, scs.chunk, jobs)
 				hit := src.calls >= k
 				switch {
 				case res.timeout || res.panic != nil:
 					viol("%s: timeout=%v panic=%v", tag, res.timeout, res.panic)
+				case hit && res.err == nil && src.offAtFail >= 0 && src.offAtFail < len(stream):
+					// the failing call was needed to obtain the rest of the stream: swallowing it is never harmless
+					viol("%s: the source failed after delivering %d of %d bytes but Read never returned an error (eof=%v, %d bytes returned)", tag, src.offAtFail, len(stream), res.eof, len(res.data))
 				case hit && res.err == nil && !(res.eof && bytes.Equal(res.data, data)):
 					// (a failing read-ahead after the end marker was already delivered is harmless)
 					viol("%s: the source failed but Read never returned an error (eof=%v, %d bytes)", tag, res.eof, len(res.data))
